@@ -28,6 +28,8 @@ import (
 
 const scriptProto = "c16-script"
 
+const lateGap = 15 * time.Millisecond
+
 // ---- scripted session (hc path) ------------------------------------------------------------------------------
 
 type script struct {
@@ -35,6 +37,7 @@ type script struct {
 	mu      sync.Mutex
 	pos     int
 	done    chan struct{} // closed when the case is over: releases every blocked CheckHealth
+	late    chan struct{} // the hanging check of the latest 'T': closed by the next check to let it answer late
 }
 
 var scripts sync.Map // host address -> *script
@@ -55,7 +58,20 @@ func (s *scriptSession) CheckHealth() bool {
 	s.sc.mu.Lock()
 	i := s.sc.pos
 	s.sc.pos++
+	late := s.sc.late
+	s.sc.late = nil
+	var mine chan struct{}
+	if i < len(s.sc.results) && s.sc.results[i] == 'T' {
+		mine = make(chan struct{})
+		s.sc.late = mine
+	}
 	s.sc.mu.Unlock()
+	if late != nil {
+		// the previous check was a 'T': it timed out long ago and is still hanging. Let it answer NOW, while this
+		// check is in progress, and give the checker time to receive that expired answer before this one answers.
+		close(late)
+		time.Sleep(lateGap)
+	}
 	if i >= len(s.sc.results) {
 		<-s.sc.done // script exhausted: never answer
 		return false
@@ -65,7 +81,13 @@ func (s *scriptSession) CheckHealth() bool {
 		return true
 	case 'f':
 		return false
-	default: // 't': the check hangs; the checker's timeout must turn it into a failure
+	case 'T': // hangs past the timeout, then answers (healthy) while the next check is in progress
+		select {
+		case <-mine:
+		case <-s.sc.done:
+		}
+		return true
+	default: // 't': the check hangs for good; the checker's timeout must turn it into a failure
 		<-s.sc.done
 		return true
 	}
@@ -320,9 +342,18 @@ func runChecker(c *hx.Ctx) {
 		s := structured(c, u, h, 6+c.Rng.Intn(30), "sf")
 		b := []byte(s)
 		for k := 0; k < c.Rng.Intn(4); k++ { // at most 3 timeouts per history (each costs the 100ms timeout)
-			b[c.Rng.Intn(len(b))] = 't'
+			// 't' hangs for good; 'T' answers late, while the following check is in progress
+			b[c.Rng.Intn(len(b))] = "tT"[c.Rng.Intn(2)]
 		}
 		jobs = append(jobs, job{u, h, uint64(c.Rng.Intn(4)), string(b)})
+	}
+	// every short pattern around a late answer: <prefix> T <suffix>
+	for _, pre := range []string{"", "s", "f", "sf"} {
+		for _, suf := range []string{"s", "f", "ss", "sf", "fs", "ff", "Ts", "ts", "sT"} {
+			if c.Thorough() || c.Rng.Chance(50) {
+				jobs = append(jobs, job{uint32(c.Rng.Intn(4)), uint32(c.Rng.Intn(4)), uint64(c.Rng.Intn(4)), pre + "T" + suf})
+			}
+		}
 	}
 	type res struct{ cs, impl string }
 	out := make([]res, len(jobs))
@@ -344,7 +375,10 @@ func runChecker(c *hx.Ctx) {
 		c.Emit("C16", r.cs, r.impl)
 		c.Count("hc.cases")
 		if strings.Contains(jobs[i].s, "t") {
-			c.Count("hc.with_timeout")
+			c.Count("hc.with_hanging_check")
+		}
+		if strings.Contains(jobs[i].s, "T") {
+			c.Count("hc.with_late_answer")
 		}
 	}
 }
